@@ -4,6 +4,26 @@ import "verif/internal/eng"
 
 func init() {
 	register(&Property{
+		ID: "C56",
+		Explanation: "Decides ordering and bit-layout conditions of the index hash table, not multimap semantics for every insertion sequence: (indexmap-shape) indexMap.add grows the table (preallocate(numentries+1), which may re-bucket) before it computes the bucket of the new key, stores the key in the new entry, links it to the old head of that bucket and makes it the new head with the old head's bloom bits carried over, and counts it on every path; preallocate re-hashes only after the new bucket array was installed; get and valuesWithID hand out an entry only on the edge e.id == id, and get/valuesWithID/firstIndex walk the chain that starts at m.buckets[m.hash(id)] while bloomHasID allows; init reserves entry 0 (end-of-chain marker) and values/preallocate enumerate from index 1; (bloom-layout) bloomMask == 1<<bloomShift - 1, bloomForID's bit number is id[0] % (64-bloomShift), bloomHasID/bloomInsertID shift by bloomShift, bloomInsertID keeps the previous head's bits, bloomCleanID masks with bloomMask, resolve strips the bloom bits, and newEntry returns only when the allocated index fits below the bloom bits (else it panics). Not decided: that every inserted entry is found for every sequence of insertions and growth steps, stability of firstIndex, and the hashed array tree's block arithmetic.",
+		Assumptions: commonAssumptions,
+		Technique:   "static analysis: CFG ordering cuts + value-shape checks of the chain links + constant evaluation of the bit layout (go/ssa, go/constant)",
+		Run: func(c *eng.Ctx) {
+			ruleIndexMapShape(c)
+			ruleBloomLayout(c)
+		},
+		Controls: []Control{
+			{Name: "hash-before-grow", File: "internal/repository/index/indexmap.go",
+				Old: "	m.preallocate(int(m.numentries) + 1)\n\n	h := m.hash(id)\n	e, idx := m.newEntry()", New: "	h := m.hash(id)\n	m.preallocate(int(m.numentries) + 1)\n\n	e, idx := m.newEntry()", Rule: "indexmap-shape"},
+			{Name: "get-trusts-bloom-filter", File: "internal/repository/index/indexmap.go",
+				Old: "		e := m.resolve(ei)\n		if e.id == id {\n			return e\n		}\n		ei = e.next", New: "		e := m.resolve(ei)\n		if e.id[0] == id[0] {\n			return e\n		}\n		ei = e.next", Rule: "indexmap-shape"},
+			{Name: "bloom-bit-overlaps-index", File: "internal/repository/index/indexmap.go",
+				Old: "	k1 := id[0] % (64 - bloomShift)", New: "	k1 := id[0] % 64", Rule: "bloom-layout"},
+			{Name: "new-head-drops-old-bloom", File: "internal/repository/index/indexmap.go",
+				Old: "	m.buckets[h] = bloomInsertID(idx, e.next, id)\n	m.numentries++", New: "	m.buckets[h] = bloomInsertID(idx, 0, id)\n	m.numentries++", Rule: "indexmap-shape"},
+		},
+	})
+	register(&Property{
 		ID: "C43",
 		Explanation: "Decides the delivery discipline of pack streaming, not offsets arithmetic: (stream-delivery) in streamPackPart the callback receives Handle/Plaintext/Err of the iterator's value; with a fallback loader configured, a blob the iterator reports as damaged reaches the callback only after loadBlobFn was tried for the same handle, and Err is cleared only on that load's success edge together with Plaintext = the fallback's bytes; after a failed download each requested blob is loaded through loadBlobFn (only if non-nil, only after beLoad failed) and delivered with exactly that load's bytes and error, and the partially filled buffer is never decoded; an error returned by the callback stops further deliveries and is returned; (chunk-partition) streamPack sorts the request, hands streamPackPart sub-slices blobs[lowerIdx:i] / blobs[lowerIdx:] of it, and lowerIdx only takes the values 0 and the upper bound of the part just streamed, so the parts are consecutive; a failing part aborts; (iterator-consumes-one) packBlobIterator.Next removes exactly the first pending entry on every non-EOF path and reports EOF only when none is left; (all-copies-tried) loadBlob moves on to the next stored copy after a failed read or a damaged copy without returning, and LoadBlob runs a second round over all index copies after dropping cached packs; nil-only-after-hash (C02) covers the plaintext check. Not decided: gap/size thresholds, and that the callback is invoked exactly once per blob when the callback itself misbehaves.",
 		Assumptions: commonAssumptions,
